@@ -32,7 +32,7 @@ TABLE = {
              "DESIGN.md 8 C09", "Lean 4 decision theorems over the dispatcher and the match-state reader + correspondence"),
     "C10": e("Lean theorems over the return-code tables regenerated from the four switch statements: for every integer code and both machines the next step is exactly what the documented table (`respSpec`) prescribes.",
              "DESIGN.md 8 C10, Appendix G", "Lean 4 case analysis over translator-generated switch tables against a response-spec interpreter + correspondence"),
-    "C11": e("Lean theorems for every operation history: the two machines are never both in FLUSH_IO_WRITE (mutual exclusion of output), and every output byte is written by the machine in that state.",
+    "C11": e("Lean theorems for every operation history: the two machines are never both in FLUSH_IO_WRITE (mutual exclusion of output), and every output byte is written by the machine in that state; for the command machine, a started unit is line break ++ buffer text ++ line break (result codes exactly OK/ERROR), each write step moves one accepted byte from the head of the remaining unit to the output and nothing else, the state is left exactly when nothing remains, and no step of the other machine changes the remainder (C11_service_unit).",
              "DESIGN.md 8 C11, Appendix B.2", "Lean 4 invariant by induction over operation sequences + correspondence"),
     "C12": e("Lean stutter theorems: a service step in which the read is refused / the write is refused leaves the acting machine's state unchanged (nothing but the refusal is observable), for every state.",
              "DESIGN.md 8 C12", "Lean 4 stutter lemmas per state + differential schedules"),
